@@ -1130,3 +1130,184 @@ def c06_row(h):
     got = k(sym) * cT
     rel = abs(got - P) / abs(P)
     return {"reproduced": bool(rel > 1e-7), "call": "Scalar(1, %r) in base units of %r vs the product of its component units" % (sym, qt), "observed": got, "expected": P, "relative_difference": rel}
+
+
+def _value_objects():
+    from collections import OrderedDict
+    import numpy
+    from barril.units import Scalar, Array, FixedArray, FractionScalar, ObtainQuantity
+    from barril.units.unit_system import UnitSystem
+    from barril.basic.fraction import Fraction, FractionValue
+    from barril.curve.curve import Curve
+
+    objs = [
+        ObtainQuantity("m", "length"), ObtainQuantity(OrderedDict([("length", ["m", 2])])),
+        Scalar(1.0, "m"), Scalar(100.0, "cm"), Scalar(1.0, "m", "depth"), Scalar(1.0, "m") * Scalar(1.0, "m"),
+        Array([1.0, 2.0], "m"), Array((1.0, 2.0), "m"), Array(numpy.array([1.0, 2.0]), "m"), Array([], "m"),
+        FixedArray(2, [1.0, 2.0], "m"), FixedArray(3, [1.0, 2.0, 3.0], "m"),
+        FractionScalar("length", value=FractionValue(1, Fraction(1, 2)), unit="m"), FractionScalar(1.5, "m"),
+        FractionValue(1, Fraction(1, 2)), FractionValue(1.5), Fraction(1, 2), Fraction(2, 4), Fraction(3, 1),
+        Curve(Array([1.0, 2.0], "m"), Array([0.0, 1.0], "s")),
+        UnitSystem("a", "A", {"length": "m"}), UnitSystem("a", "A", {"length": "m"}, True),
+    ]
+    others = [None, 0, 1.5, "m", (1, 2), [1.0, 2.0], object(), {"a": 1}]
+    return objs, others
+
+
+@probe("equality")
+def equality(h):
+    """C08: == and != between barril value objects and unrelated objects never raise, are reflexive and symmetric;
+    equal hashable objects have equal hashes"""
+    objs, others = _value_objects()
+    for x in objs:
+        for y in objs + others:
+            res = []
+            for name, f in (("x == y", lambda: x == y), ("y == x", lambda: y == x), ("x != y", lambda: x != y), ("y != x", lambda: y != x)):
+                try:
+                    res.append(bool(f()))
+                except Exception as e:
+                    return {"reproduced": True, "call": "%s with x=%r (%s), y=%r (%s)" % (name, x, type(x).__name__, y, type(y).__name__), "observed": repr(e), "expected": "a bool"}
+            if res[0] != res[1] or res[2] != res[3] or res[0] == res[2]:
+                return {"reproduced": True, "call": "==/!= between %r and %r" % (x, y), "observed": res, "expected": "symmetric, != is the negation of =="}
+            if res[0]:
+                try:
+                    hx, hy = hash(x), hash(y)
+                except TypeError:
+                    continue
+                if hx != hy:
+                    return {"reproduced": True, "call": "hash of equal objects %r, %r" % (x, y), "observed": [hx, hy], "expected": "equal hashes"}
+        try:
+            if not (x == x) or (x != x):
+                return {"reproduced": True, "call": "%r == itself" % (x,), "observed": False, "expected": True}
+        except Exception as e:
+            return {"reproduced": True, "call": "%r == itself" % (x,), "observed": repr(e), "expected": True}
+    return {"reproduced": False}
+
+
+@probe("fractions")
+def fractions_probe(h):
+    """C18/C08: Fraction vs fractions.Fraction on a grid; FractionValue amount; equality totality"""
+    import copy
+    import fractions
+    import operator
+    from barril.basic.fraction import Fraction, FractionValue
+
+    grid = [(n, d) for n in (-7, -2, -1, 0, 1, 3, 10) for d in (-4, -1, 1, 2, 6)]
+    ops = {"+": operator.add, "-": operator.sub, "*": operator.mul, "/": operator.truediv}
+    cmps = {"==": operator.eq, "<": operator.lt, "<=": operator.le, ">": operator.gt, ">=": operator.ge, "!=": operator.ne}
+    for n1, d1 in grid:
+        for n2, d2 in grid:
+            a, b = Fraction(n1, d1), Fraction(n2, d2)
+            ra, rb = fractions.Fraction(n1, d1), fractions.Fraction(n2, d2)
+            for s, f in ops.items():
+                if s == "/" and n2 == 0:
+                    continue
+                r = f(a, b)
+                if fractions.Fraction(r.numerator, r.denominator) != f(ra, rb):
+                    return {"reproduced": True, "call": "Fraction(%d,%d) %s Fraction(%d,%d)" % (n1, d1, s, n2, d2), "observed": repr(r), "expected": str(f(ra, rb))}
+            for s, f in cmps.items():
+                if f(a, b) != f(ra, rb):
+                    return {"reproduced": True, "call": "Fraction(%d,%d) %s Fraction(%d,%d)" % (n1, d1, s, n2, d2), "observed": f(a, b), "expected": f(ra, rb)}
+            va, vb = FractionValue(2, a), FractionValue(-1.5, b)
+            if float(va) != 2 + float(ra) or (va < vb) != (float(va) < float(vb)) or (va >= vb) != (float(va) >= float(vb)):
+                return {"reproduced": True, "call": "FractionValue(2, %r)" % (a,), "observed": float(va), "expected": 2 + float(ra)}
+            c = copy.copy(va)
+            if not (c == va and c is not va and c.GetFraction() is not va.GetFraction()):
+                return {"reproduced": True, "call": "copy.copy(%r)" % (va,), "observed": repr(c), "expected": "an equal, independent copy"}
+    r = equality({})
+    if r.get("reproduced"):
+        return r
+    return {"reproduced": False}
+
+
+@probe("fraction_scalar")
+def fraction_scalar(h):
+    """C18/C08: a FractionScalar converts, orders and validates like a Scalar holding float(value)"""
+    import operator
+    from barril.units import FractionScalar, Scalar
+    from barril.basic.fraction import Fraction, FractionValue
+
+    clause = h.get("clause") or ""
+    vals = [FractionValue(5, Fraction(1, 2)), FractionValue(0, Fraction(3, 4)), FractionValue(-2, Fraction(1, 8)), FractionValue(1.25)]
+    pairs = [("m", "cm"), ("in", "ft"), ("degC", "K"), ("degF", "degC")]
+    want_affine = "affine" in clause
+    want_order = "order" in clause or bool(h.get("variant") and h["variant"][0] in ("lt", "le", "gt", "ge"))
+
+    def conversions(include_affine):
+        for v in vals:
+            for u, w in pairs:
+                affine = u.startswith("deg")
+                if affine != include_affine:
+                    continue
+                fs = FractionScalar(v, u)
+                sc = Scalar(float(v), u)
+                got, exp = float(fs.GetValue(w)), sc.GetValue(w)
+                if abs(got - exp) > 1e-7 * max(1.0, abs(exp)):
+                    return {"reproduced": True, "call": "float(FractionScalar(%r, %r).GetValue(%r))" % (v, u, w), "observed": got, "expected": exp}
+                if float(fs.GetValue(u)) != float(v) or fs.GetValue() is not fs.value:
+                    return {"reproduced": True, "call": "FractionScalar(%r, %r).GetValue(own unit)" % (v, u), "observed": float(fs.GetValue(u)), "expected": float(v)}
+        return None
+
+    if want_affine:
+        return conversions(True) or {"reproduced": False}
+    if not want_order:
+        r = conversions(False)
+        if r:
+            return r
+    ops = {"<": operator.lt, "<=": operator.le, ">": operator.gt, ">=": operator.ge}
+    items = [(FractionValue(1), "m", None), (FractionValue(100), "cm", None), (FractionValue(1), "m", "depth"), (FractionValue(0, Fraction(1, 2)), "m", None), (FractionValue(50), "cm", "depth")]
+    if True:
+        for va, ua, ca in items:
+            for vb, ub, cb in items:
+                a = FractionScalar(va, ua, ca) if ca else FractionScalar(va, ua)
+                b = FractionScalar(vb, ub, cb) if cb else FractionScalar(vb, ub)
+                pa, pb = Scalar(float(va), ua), Scalar(float(vb), ub)
+                for s, f in ops.items():
+                    exp = f(pa.GetValue("m"), pb.GetValue("m"))
+                    try:
+                        got = f(a, b)
+                    except Exception as e:
+                        got = repr(e)
+                    if got != exp:
+                        return {"reproduced": True, "call": "%r %s %r" % (a, s, b), "observed": got, "expected": exp}
+        try:
+            FractionScalar(FractionValue(1), "m") < FractionScalar(FractionValue(1), "s")
+            return {"reproduced": True, "call": "FractionScalar in m < FractionScalar in s", "observed": "no error", "expected": "TypeError"}
+        except TypeError:
+            pass
+    return {"reproduced": False}
+
+
+@probe("c18_bounded")
+def c18_bounded(h):
+    """BOUNDED stand-in (not a proof): format/parse round trip of FractionValue and CreateFromFloat on a grid"""
+    from barril.basic.fraction import Fraction, FractionValue
+
+    n = 0
+    # str / CreateFromString round trip: numbers -50..50 (step 1 and .5/.25), fractions n/d with d in 2..16
+    numbers = [x * 0.25 for x in range(-200, 201)]
+    fracs = [(a, d) for d in (2, 3, 4, 8, 16) for a in range(0, d)]
+    for num in numbers:
+        for a, d in fracs:
+            if a and float(num) % 1 != 0:
+                continue  # the textual form 'number fraction' is used with whole numbers
+            v = FractionValue(num, Fraction(a, d))
+            n += 1
+            text = str(v)
+            try:
+                back = FractionValue.CreateFromString(text, consider_locale=False)
+            except Exception as e:
+                return {"reproduced": True, "call": "CreateFromString(str(%r)) = CreateFromString(%r)" % (v, text), "observed": repr(e), "expected": repr(v), "evaluations": n}
+            if float(back) != float(v) or back.GetNumber() != v.GetNumber() or back.GetFraction() != v.GetFraction():
+                return {"reproduced": True, "call": "CreateFromString(str(%r)) = CreateFromString(%r)" % (v, text), "observed": repr(back), "expected": repr(v), "evaluations": n}
+    # CreateFromFloat: k/64 for k in -640..640, and decimals with up to 3 digits in (-10, 10)
+    floats = [k / 64.0 for k in range(-640, 641)] + [k / 1000.0 for k in range(-9999, 10000, 7)]
+    for x in floats:
+        n += 1
+        try:
+            v = FractionValue.CreateFromFloat(x)
+        except Exception as e:
+            return {"reproduced": True, "call": "CreateFromFloat(%r)" % x, "observed": repr(e), "expected": "a FractionValue denoting %r" % x, "evaluations": n}
+        if abs(float(v) - x) > 1e-9 * max(1.0, abs(x)):
+            return {"reproduced": True, "call": "CreateFromFloat(%r)" % x, "observed": "%r = %r" % (v, float(v)), "expected": x, "evaluations": n}
+    return {"reproduced": False, "evaluations": n}
